@@ -901,6 +901,12 @@ impl Server {
             };
             responses.push(response);
             
+            // QUIT ends the batch: what follows it in the same read is not executed (it would not be if it
+            // arrived in the next read either)
+            if should_close {
+                break;
+            }
+            
             // A blocking command that blocked ends the batch: a blocked client executes nothing (its later
             // BLPOP would register it twice and never be answered); the rest waits until it is unblocked
             if self.is_connection_blocked(id) {
